@@ -108,9 +108,19 @@ func sizes(r *payload.SplitMix, cfg prog.Config) int {
 	return n
 }
 
-func withFlush(acts []prog.Act, manual bool) []prog.Act {
+func withFlush(acts []prog.Act, manual bool, leaveTail bool) []prog.Act {
 	if !manual {
 		return acts
+	}
+	// with leaveTail the last burst is not flushed by the application when nothing but the graceful end
+	// of its direction follows (the half-close, or the handler's return): the half-close carries it out
+	onlyEndFollows := func(i int) bool {
+		for _, a := range acts[i+1:] {
+			if a.Op != 'h' && a.Op != 'R' && a.Op != 'Q' { // a 'q' (the idle check) needs the flush
+				return false
+			}
+		}
+		return true
 	}
 	// under ManualFlush the application flushes; flush after the last send of each burst
 	var out []prog.Act
@@ -118,7 +128,7 @@ func withFlush(acts []prog.Act, manual bool) []prog.Act {
 		out = append(out, a)
 		isSend := a.Op == 's' || a.Op == 'P' || a.Op == 'S'
 		nextSend := i+1 < len(acts) && (acts[i+1].Op == 's' || acts[i+1].Op == 'P' || acts[i+1].Op == 'S')
-		if isSend && !nextSend {
+		if isSend && !nextSend && !(leaveTail && onlyEndFollows(i)) {
 			out = append(out, prog.Act{Op: 'f'})
 		}
 	}
@@ -314,8 +324,12 @@ func scenario(id string, seed uint64, sh shape, held bool, real string) runner.R
 		}
 		cfg.Desc += " raw-recv"
 	}
-	s.Client = withFlush(s.Client, manual)
-	s.Handler = withFlush(s.Handler, manual)
+	leaveTail := manual && s.Clean && payload.Hash(seed, 0xC1A5)%2 == 0
+	if leaveTail {
+		cfg.Desc += " tail-left-to-the-half-close"
+	}
+	s.Client = withFlush(s.Client, manual, leaveTail)
+	s.Handler = withFlush(s.Handler, manual, leaveTail)
 	if !prog.Validate(s) {
 		return runner.Inconcl(id, "generated program deadlocks by construction")
 	}
